@@ -47,7 +47,7 @@ FASTOR_INLINE float _trace<float,2,2>(const float * FASTOR_RESTRICT a) {
 #ifdef FASTOR_AVX_IMPL
 template<>
 FASTOR_INLINE float _trace<float,3,3>(const float * FASTOR_RESTRICT a) {
-    __m256 a_reg = _mm256_load_ps(a);
+    __m256 a_reg = _mm256_loadu_ps(a);
     __m128 sum_two = _mm_add_ps(_mm256_castps256_ps128(a_reg),_mm256_extractf128_ps(a_reg,0x1));
     return _mm_cvtss_f32(_mm_add_ss(sum_two,_mm_load_ss(a+8)));
 }
